@@ -309,12 +309,12 @@ AddReturn(d) ==                                   \* `def f(a): ...` -> `def f(a
 
 \* ---- behaviours --------------------------------------------------------------------------------------
 ReexpChoices == IF BaseFamily = "small" THEN {{"K", "f", "x"}} ELSE {{}, {"f"}, {"K", "x"}, {"K", "f", "x"}}
-MallChoices == IF BaseFamily = "small" THEN {"none", "part"} ELSE {"none", "full", "part"}
+MallChoices == IF BaseFamily = "small" THEN {"part"} ELSE {"none", "full", "part"}
 Init ==
   /\ mpriv \in BOOLEAN
   /\ site \in {"root", "sib"}
   /\ \E mallc \in MallChoices, reexp \in ReexpChoices, withRall \in BOOLEAN, ext \in BOOLEAN, cyc \in BOOLEAN, kbase \in BOOLEAN :
-        /\ (BaseFamily = "small" => (ext = cyc) /\ kbase)
+        /\ (BaseFamily = "small" => ~ext /\ ~cyc /\ kbase)
         /\ old = BasePackage(mallc, reexp, withRall, ext, cyc, kbase)
   /\ new = old /\ log = <<>>
   /\ report = Report(old, old)
